@@ -139,3 +139,30 @@ Theorem C09_translated_queueing_is_model :
   = Ok (responder_reset r).
 Proof. exact RV.Proofs.CodeServer.gen_queueing_model. Qed.
 Print Assumptions C09_translated_queueing_is_model.
+
+(* ---- Server::process_events, translated from src/server.rs on this run, for a wake-up with the
+   UDP socket readable: `loop { reset both responders; collect_requests; send IETF; send classic;
+   if socket_now_empty { break } }` (a loop on fuel = queue length + 1) is the model's drain: same
+   datagrams in the same order, same statistics events, same responders afterwards, or both fail.
+   (self.socket = (waiting, sent); the k-th batch reads the clock clk k; the PRNG decisions are
+   shared by the two responders as in the model.) ---- *)
+Theorem C09_translated_process_events_is_model :
+  forall H ed_sign cfg clk on_health on_status srv ri rc q sent buf st coins k events,
+  ok_opt (RV.Proofs.CodeServer.omap (fun '(sock, _, ri', rc', st', _, _) => (ri', rc', snd sock, st'))
+     (gen_process_events H ed_sign cfg clk [EvMessage] on_health on_status (N.of_nat (batch_size cfg))
+        (q, sent) buf srv ri rc st coins k events))
+  = RV.Proofs.CodeClient.obo (ok_opt (drain H ed_sign (S (length q)) (mksrv cfg srv ri rc) q clk k coins))
+      (fun '(s2, o) => Some (s_ietf s2, s_classic s2, sent ++ so_sent o, st ++ so_stats o)).
+Proof. exact RV.Proofs.CodeServer.gen_process_events_model. Qed.
+Print Assumptions C09_translated_process_events_is_model.
+
+(* a wake-up for the health-check listener or the statistics timer touches neither the responders
+   nor the UDP socket *)
+Theorem C09_translated_other_events_leave_requests_alone :
+  forall H ed_sign cfg clk on_health on_status bs srv ri rc sock buf st coins k events,
+  gen_process_events H ed_sign cfg clk [EvHealthCheck] on_health on_status bs sock buf srv ri rc st coins k events
+  = Ok (sock, buf, ri, rc, on_health st, coins, k)
+  /\ gen_process_events H ed_sign cfg clk [EvStatusUpdate] on_health on_status bs sock buf srv ri rc st coins k events
+  = Ok (sock, buf, ri, rc, on_status st, coins, k).
+Proof. exact RV.Proofs.CodeServer.gen_process_events_other. Qed.
+Print Assumptions C09_translated_other_events_leave_requests_alone.
